@@ -234,18 +234,25 @@ def spec_eval(bodies, name="run", workers=None, timeout=1800, max_steps=None):
     """Runs SeedRun on the given program bodies; returns outcome per program
     (None if TLC printed none for it), plus TLC stats."""
     d = scratch("specrun-" + name)
-    pf = os.path.join(d, "progs.ndjson")
-    with open(pf, "w") as f:
-        for b in bodies:
-            f.write(json.dumps({"body": b}, separators=(",", ":")) + "\n")
-    rc, lines = tlc("SeedRun", env={"SEED_PROGS": pf}, workers=workers or 8, timeout=min(timeout, 900),
-                    metaname="run-" + name)
     outs = [None] * len(bodies)
-    for o in tagged(lines, "OUTCOME"):
-        outs[o["pi"] - 1] = o
-    if not tlc_ok(rc, lines):
-        raise ToolError("SeedRun failed:\n" + tlc_error_text(lines))
-    return outs, tlc_stats(lines)
+    total = {"generated": 0, "distinct": 0, "depth": 0}
+    CH = 1200         # programs per TLC run (a run has a time limit: big corpora are validated in pieces)
+    for c0 in range(0, len(bodies), CH):
+        pf = os.path.join(d, "progs%d.ndjson" % c0)
+        with open(pf, "w") as f:
+            for b in bodies[c0:c0 + CH]:
+                f.write(json.dumps({"body": b}, separators=(",", ":")) + "\n")
+        rc, lines = tlc("SeedRun", env={"SEED_PROGS": pf}, workers=workers or 8, timeout=timeout,
+                        metaname="run-" + name)
+        for o in tagged(lines, "OUTCOME"):
+            outs[c0 + o["pi"] - 1] = o
+        if not tlc_ok(rc, lines):
+            raise ToolError("SeedRun failed (rc=%d):\n%s" % (rc, tlc_error_text(lines) or "\n".join(lines[-8:])))
+        st = tlc_stats(lines)
+        total["generated"] += st["generated"]
+        total["distinct"] += st["distinct"]
+        total["depth"] = max(total["depth"], st["depth"])
+    return outs, total
 
 
 # --------------------------------------------------------------------------
